@@ -10,7 +10,7 @@ TYPE_ERRORS = {"E0277", "E0308", "E0271", "E0369", "E0599", "E0282", "E0283", "E
 
 MONO_OPS = {"TransposeRaw"}
 
-BASIS = {"Model": "re::render::Model", "World": "re::render::World", "Unit": "()"}
+BASIS = {"Model": "re::render::Model", "World": "re::render::World", "Unit": "()", "User": "crate::UserTag"}
 
 
 def ty(t):
@@ -148,6 +148,7 @@ def run(tier):
     spans_bad = write_module(os.path.join(CORPUS, "src", "bad.rs"), bad)
     with open(os.path.join(CORPUS, "src", "lib.rs"), "w") as f:
         f.write("// generated by py/c10.py from the programs exported by MC_Types\n"
+                "/// a user-defined basis tag: a bare marker, no derives\npub enum UserTag {}\n"
                 "#[cfg(feature = \"ok\")]\npub mod ok;\n#[cfg(feature = \"bad\")]\npub mod bad;\n")
         for j in range(len(mono)):
             f.write("#[cfg(feature = \"mono%d\")]\npub mod mono%d;\n" % (j, j))
